@@ -15,6 +15,11 @@ NOT_APPLICABLE: dict[str, str] = {}
 
 def main():
     props = [json.loads(l)["id"] for l in open(os.path.join(VERIF, "properties.jsonl"))]
+    models: dict = {}
+    idx = os.path.join(VERIF, "sa", "reference", "models", "index.json")
+    if os.path.exists(idx):
+        for m in json.load(open(idx))["models"]:
+            models[m["property"]] = models.get(m["property"], 0) + 1
     checks = []
     na = []
     engines = {}
@@ -41,7 +46,8 @@ def main():
                 },
                 "level_note": "Trusted base: CPython ast parser; the checker under /verif/sa; reference tables transcribed from the SEMI standards; "
                 + "; ".join(meta.get("assumptions", [])),
-                "technique": meta.get("technique", "static analysis: AST/CFG/dataflow rules specific to this repository"),
+                "technique": meta.get("technique", "static analysis of the syntax tree (no execution): repository-specific CFG/dominator/dataflow rules with canonical branch conditions, helper inlining and normal forms; abstract summaries (polynomial cursors, sequence grammars, loop induction) compared with reference models; bit-provenance and finite-domain abstract evaluation; state-machine table extraction")
+                + (f"; {models.get(pid, 0)} reviewed reference models of anchored functions (sa/reference/models)" if models.get(pid) else ""),
             },
         )
     manifest = {
